@@ -33,7 +33,7 @@ func scratch() string {
 }
 
 func cleanupScratch() {
-	if scratchRoot != "" {
+	if scratchRoot != "" && os.Getenv("VERIF_KEEP_SCRATCH") == "" { // kept only for debugging an experiment
 		os.RemoveAll(scratchRoot)
 	}
 }
